@@ -2,9 +2,9 @@
 # Applies every seeded change under seeded/ to /repo in turn, runs the check of its property, undoes it.
 # Prints one line per change: CAUGHT / MISSED.  (Nothing else may use /repo while this runs.)
 cd /verif
-for d in seeded/*/; do
+for d in ${@:-seeded/*/}; do
   id=$(basename $d); prop=$(python3 -c "import json;print(json.load(open('$d/meta.json'))['property'])")
-  git -C /repo apply $d/patch.diff || { echo "$id PATCH-FAILED"; continue; }
+  git -C /repo apply /verif/$d/patch.diff || { echo "$id PATCH-FAILED"; continue; }
   out=$(timeout 1500 bin/check $prop 2>&1 | grep -v WARNING | head -3)
   git -C /repo checkout -- .
   if echo "$out" | grep -q "^VIOLATION property=$prop"; then echo "$id CAUGHT"; else echo "$id MISSED: $out"; fi
